@@ -40,7 +40,7 @@ func (g *c16Gen) unknownHashes() []string {
 }
 
 func (g *c16Gen) malformedHashes() []string {
-	k := g.f.rows[3].Hash
+	k := g.f.rows[3%len(g.f.rows)].Hash
 	return []string{
 		"x", "0", "abc", k[:63], k + "0", strings.ToUpper(k), " " + k, k + " ", "0x" + k[2:],
 		strings.Repeat("z", 64), "null", "undefined", "-1", "' OR '1'='1", `";DROP TABLE headers;--`,
@@ -60,6 +60,7 @@ func c16Q(kv ...string) string {
 func (g *c16Gen) intStrings() (nums []string, junk []string) {
 	nums = []string{"0", "1", "2", "3", "5", "6", "100", "-1", "-5", "+3", "007", "-0", "2147483647", "2147483648", "-2147483648",
 		"-2147483649", "4294967296", "9223372036854775807", "9223372036854775808", "-9223372036854775808", "-9223372036854775809",
+		"35184372088832", "35184372088833", "9007199254740992", "4611686018427387904", "1000000000000", "1000000000000000",
 		"18446744073709551616", "99999999999999999999999999999999", "-99999999999999999999999999999999", "0000000000000000000000001"}
 	junk = []string{"abc", "1.5", "1e3", "0x10", " 5", "5 ", "1_000", "٣", "５", "--5", "+-5", "+", "-", "NaN", "Infinity",
 		"null", "true", "[]", "{}", "1,2", "5;", "\x00", "5\x00", strings.Repeat("9", 5000) + "x", "\U0001F600"}
@@ -71,7 +72,7 @@ func (g *c16Gen) structured() []c16GenReq {
 	out := []c16GenReq{}
 	add := func(r *c16Req, want string) { out = append(out, c16GenReq{r, want}) }
 	nrows := len(f.rows)
-	known := func(i int) string { return f.rows[i].Hash }
+	known := func(i int) string { return f.rows[i%nrows].Hash }
 
 	// ---- header by hash / state
 	for _, rt := range []struct{ path, name string }{{"/chain/header/", "hdr"}, {"/chain/header/state/", "state"}} {
@@ -88,7 +89,7 @@ func (g *c16Gen) structured() []c16GenReq {
 	// ---- by height
 	nums, junk := g.intStrings()
 	counts := []struct{ present bool; v string }{{false, ""}, {true, ""}, {true, "1"}, {true, "3"}, {true, "0"}, {true, "-2"}, {true, "9223372036854775807"},
-		{true, "99999999999999999999"}, {true, "abc"}, {true, "2147483648"}}
+		{true, "99999999999999999999"}, {true, "abc"}, {true, "2147483648"}, {true, "4294967296"}, {true, "35184372088833"}, {true, "1000000000000"}}
 	hq := func(h string, hp bool, ci int) string {
 		kv := []string{}
 		if hp {
@@ -105,6 +106,15 @@ func (g *c16Gen) structured() []c16GenReq {
 				add(g.get("/chain/header/byHeight", hq(h, true, ci)), "off byheight height=n:")
 			}
 		}
+	}
+	absurd := []string{"2147483648", "4294967296", "35184372088832", "35184372088833", "9007199254740992", "4611686018427387904",
+		"9223372036854775807", "1000000000000", "1000000000000000", "-4294967296", "-9223372036854775808"}
+	for _, h := range absurd {
+		for _, n := range absurd {
+			add(g.get("/chain/header/byHeight", c16Q("height", h, "count", n)), "off byheight height=n:")
+		}
+		add(g.get("/chain/header/byHeight", c16Q("height", "1", "count", h)), "off byheight height=n:1 count=n:")
+		add(g.get("/chain/header/byHeight", c16Q("height", "0", "count", h)), "off byheight height=n:0 count=n:")
 	}
 	for i, h := range junk {
 		for ci := range counts {
@@ -224,6 +234,13 @@ func (g *c16Gen) structured() []c16GenReq {
 			}
 		}
 	}
+	for _, b := range absurd {
+		for li := range lastVals {
+			if li < 4 || li >= len(lastVals)-3 {
+				add(g.get("/chain/merkleroot", mq(b, true, li)), "off mroots batch=n:")
+			}
+		}
+	}
 	for i, b := range junk {
 		for li := range lastVals {
 			if li < 1 || (i+li)%7 == 0 {
@@ -232,7 +249,7 @@ func (g *c16Gen) structured() []c16GenReq {
 		}
 	}
 	// ---- verify
-	m1, m6 := f.rows[1].Merkle, f.rows[6].Merkle
+	m1, m6 := f.rows[1%nrows].Merkle, f.rows[6%nrows].Merkle
 	item := func(m string, h string) string { return `{"merkleRoot":"` + m + `","blockHeight":` + h + `}` }
 	for _, b := range []struct{ body, want string }{
 		{"[" + item(m1, "1") + "]", "list:1"}, {"[" + item(m1, "1") + "," + item(m6, "3") + "]", "list:2"}, {"[" + item(m1, "0") + "]", "list:1"},
@@ -256,6 +273,17 @@ func (g *c16Gen) structured() []c16GenReq {
 		Body: []c16Piece{{"[", 1}, {item(m1, "1") + ",", g.c.Pick(3000, 50000)}, {item(m6, "3") + "]", 1}}}, "off verify body=list:")
 	add(&c16Req{Method: "POST", Path: c16API + "/chain/merkleroot/verify", CT: "application/json",
 		Body: []c16Piece{{"[", 1}, {"{", 50000}}}, "off verify body=bad:syntax")
+	for _, n := range absurd {
+		add(g.post("/chain/merkleroot/verify", "["+item(m1, n)+"]"), "off verify body=bad:range")
+	}
+	add(&c16Req{Method: "POST", Path: c16API + "/chain/merkleroot/verify", CT: "application/json",
+		Body: []c16Piece{{"[", 1}, {"null,", g.c.Pick(8000, 200000)}, {"null]", 1}}}, "off verify body=list:")
+	add(&c16Req{Method: "POST", Path: c16API + "/chain/merkleroot/verify", CT: "application/json",
+		Body: []c16Piece{{`[{"merkleRoot":"`, 1}, {"ab", g.c.Pick(1000000, 8000000)}, {`","blockHeight":1,"pad":[`, 1}, {"0,", g.c.Pick(100000, 1000000)}, {"0]}]", 1}}}, "off verify body=list:1")
+	add(&c16Req{Method: "POST", Path: c16API + "/chain/header/commonAncestor", CT: "application/json",
+		Body: []c16Piece{{"[", 1}, {`"x",`, g.c.Pick(100000, 2000000)}, {`"x"]`, 1}}}, "off common body=list:mal*")
+	add(&c16Req{Method: "POST", Path: c16API + "/webhook", CT: "application/json",
+		Body: []c16Piece{{`{"url":"http://c16.example/new","extra":[`, 1}, {"0,", g.c.Pick(100000, 2000000)}, {`0]}`, 1}}}, "off whpost body=ok:new")
 	for i := 0; i < nrows; i++ {
 		add(g.post("/chain/merkleroot/verify", "["+item(f.rows[i].Merkle, fmt.Sprint(f.rows[i].Height))+"]"), "off verify body=list:1")
 	}
@@ -325,6 +353,9 @@ func (g *c16Gen) structured() []c16GenReq {
 	// plus the whole structured set with the admin token / the user token on a stride
 	reps := map[string]*c16Req{}
 	for _, gr := range out {
+		if len(gr.r.Body) > 1 {
+			continue // the absurd-length bodies are no representatives
+		}
 		_, route, skip := f.classify(gr.r)
 		if skip == "" && route != "unrouted" {
 			if _, ok := reps[route]; !ok {
